@@ -30,6 +30,8 @@ func sessionWorld(r *Rng) (Config, bool) {
 		opts["skip_auth_regex"] = []string{"^/public/.*"}
 	}
 	cfg.Routes = []Route{routeFor(1, opts)}
+	// what the identity provider issues is an opaque string; it travels in headers, form bodies and queries between the services
+	cfg.TokenChars = r.Pick("", "", "", "", "+/", "==", "&email=x", "%2B")
 	return cfg, groups
 }
 
